@@ -148,30 +148,32 @@ Proof.
   destruct Ht as [-> | ->]; simpl; by destruct (v u).
 Qed.
 
+Lemma node_ok_driven (v : val) x j u :
+  (n_ty j = Buf ∨ n_ty j = BbIn) → n_fi j = {[u]} → node_ok v x j ↔ v x = v u.
+Proof.
+  intros Hty Hfi. unfold node_ok, is_free. rewrite Hfi.
+  assert (bool_decide (({[u]} : gset string) = ∅) = false) as Hne.
+  { apply bool_decide_eq_false. intros He.
+    assert (u ∈ (∅ : gset string)) as Hu by (rewrite <- He; set_solver). set_solver. }
+  destruct Hty as [-> | ->]; rewrite Hne, gate_val_buf_singleton by auto; done.
+Qed.
+
 Lemma drive_node c u x i v :
   c !! x = Some i → (n_ty i = Buf ∨ n_ty i = BbIn) → n_fi i ⊆ {[u]} →
   consistent (add_edge c u x) v ↔ consistent c v ∧ v x = v u.
 Proof.
   intros Hx Hty Hfi. unfold add_edge.
   set (i' := upd_fi (λ s, {[u]} ∪ s) i).
-  assert (Hfi' : n_fi i' = {[u]}).
-  { unfold i', upd_fi. simpl. apply set_eq. intros z. set_solver. }
   assert (Hok' : node_ok v x i' ↔ v x = v u).
-  { unfold node_ok, is_free. unfold i' at 1 2. cbn [upd_fi n_ty].
-    assert (bool_decide (n_fi i' = ∅) = false) as Hne.
-    { apply bool_decide_eq_false. rewrite Hfi'. intros He. apply (f_equal (λ s, u ∈ s)) in He.
-      assert (u ∈ (∅ : gset string)) as Hu by (rewrite <- He; set_solver). set_solver. }
-    destruct Hty as [Ht|Ht]; rewrite Ht, Hne, Hfi'; rewrite gate_val_buf_singleton by auto; done. }
+  { apply node_ok_driven; [done|]. unfold i', upd_fi. simpl. apply set_eq. intros z. set_solver. }
   assert (Hok : v x = v u → node_ok v x i).
-  { intros Hv. unfold node_ok, is_free.
-    destruct (decide (n_fi i = ∅)) as [He|He].
-    - destruct Hty as [Ht|Ht]; rewrite Ht, bool_decide_eq_true_2 by done; done.
-    - assert (n_fi i = {[u]}) as Hs.
-      { apply set_eq. intros z. split; [by apply Hfi|]. intros ->%elem_of_singleton.
-        destruct (decide (u ∈ n_fi i)) as [|Hn]; [done|]. exfalso. apply He.
-        apply set_eq. intros z. split; [|set_solver]. intros Hz. pose proof (Hfi z Hz) as ->%elem_of_singleton. done. }
-      destruct Hty as [Ht|Ht]; rewrite Ht, bool_decide_eq_false_2 by done;
-        rewrite Hs, gate_val_buf_singleton by auto; done. }
+  { intros Hv. destruct (decide (n_fi i = ∅)) as [He|He].
+    - unfold node_ok, is_free. destruct Hty as [-> | ->]; rewrite bool_decide_eq_true_2 by done; done.
+    - apply (node_ok_driven v x i u); [done| |done].
+      apply set_eq. intros z. split; [by apply Hfi|]. intros ->%elem_of_singleton.
+      destruct (decide (u ∈ n_fi i)) as [|Hn]; [done|]. exfalso. apply He.
+      apply set_eq. intros z. split; [|set_solver]. intros Hz.
+      pose proof (Hfi z Hz) as ->%elem_of_singleton. done. }
   unfold consistent. split.
   - intros H. assert (v x = v u) as Hv.
     { apply Hok'. apply H. by rewrite lookup_alter, Hx. }
